@@ -159,6 +159,11 @@ def run(tier: str, rep: Report):
     def keyfn(evid, clauses):
         return f"{PID}/{'+'.join(sorted(set(c.split('.', 1)[1] for c in clauses)))}/ver{evid.split(':')[1]}"
 
+    def corrupt(e):
+        e["exit"] = 2 - e["exit"] if e["exit"] in (0, 2) else 0
+        return e
+
+    df.negative_control(rep, files, "Trace_Cli", corrupt, ("P16.exit",))
     df.classify(rep, fails, ("P16.",), PID, keyfn)
 
 
